@@ -84,6 +84,7 @@ func init() {
 			ruleBTPure(c)
 			ruleWASel(c)
 			ruleSGReg(c)
+			ruleArrItem(c)
 			ruleBTRec(c)
 			ruleRegOverwrite(c)
 			ruleRegArg(c)
